@@ -15,6 +15,7 @@
 package main
 
 import (
+	"strconv"
 	"bufio"
 	"bytes"
 	"context"
@@ -65,6 +66,13 @@ func runChain(l Limits, reqs []ChainReq) (out []ChainObs, errs string) {
 	cfg.Server.RateLimits.HealthRequestsPerMinute = l.Health
 	cfg.Server.RateLimits.BurstSize = l.Burst
 	cfg.Server.RateLimits.CleanupInterval = 0
+	if len(reqs) > 0 { // a client id "x#c<ms>" selects rate_limits.cleanup_interval = <ms> for the scenario
+		if _, ms, ok := strings.Cut(reqs[0].Client, "#c"); ok {
+			if n, err := strconv.Atoi(ms); err == nil {
+				cfg.Server.RateLimits.CleanupInterval = time.Duration(n) * time.Millisecond
+			}
+		}
+	}
 	cfg.Server.RequestLimits.MaxBodySize = l.MaxBody
 	cfg.Server.RequestLimits.MaxHeaderSize = 0
 	defer func() {
@@ -433,6 +441,14 @@ func main() {
 				q = append(q, ChainReq{Client: clients[i%len(clients)], Health: healthEvery > 0 && i%healthEvery == healthEvery-1, Body: body})
 			}
 			return q
+		}
+		// a client that empties its bucket, stays silent for several cleanup intervals and comes back:
+		// the silence is far too short to refill a token, so it must still be refused
+		for _, cl := range []int{50, 100} {
+			id := fmt.Sprintf("9.9.9.9#c%d", cl)
+			q := []ChainReq{{id, false, 10, 0}, {id, false, 10, 0}, {id, false, 10, 0}, {id, false, 10, 0},
+				{id, false, 10, 6 * cl}, {id, false, 10, 0}, {id, false, 10, 0}, {id, false, 10, 3 * cl}, {id, false, 10, 0}}
+			chains = append(chains, chainCase{Limits{0, 6, 0, 3, 0}, q})
 		}
 		chains = append(chains,
 			chainCase{Limits{0, 2, 0, 2, 0}, mkReqs(6, []string{"1.1.1.1"}, 0, 10)},                          // burst then refuse
